@@ -62,6 +62,7 @@ theorem validateU_values (target : MG Name) (ds : List Domain) (e : Event) (h : 
   obtain ⟨_, h⟩ := ite_error_ok h
   obtain ⟨_, h⟩ := ite_error_ok h
   obtain ⟨_, h⟩ := ite_error_ok h
+  obtain ⟨_, h⟩ := ite_error_ok h
   obtain ⟨h11, _⟩ := ite_error_ok h
   intro p hp i hi
   unfold valueMismatch at h11
